@@ -68,6 +68,7 @@ type cvProbeState struct {
 	calls   int
 	padded  int
 	details string
+	blank   string // tnopanic: a blank line among the lines at transform time (hypothesis of GM.Props.ConvertNP: never)
 }
 
 type cvProbe struct{}
@@ -97,6 +98,9 @@ func (cvProbe) Transform(node *ast.Paragraph, reader text.Reader, pc parser.Cont
 		prev = s.Stop
 		if s.Padding != 0 {
 			pad0 = false
+		}
+		if st.blank == "" && util.IsBlank(src[s.Start:s.Stop]) {
+			st.blank = fmt.Sprintf("line %d = [%d,%d) of %d lines is blank", i, s.Start, s.Stop, lines.Len())
 		}
 		view = append(view, bytes.Repeat([]byte{' '}, s.Padding)...)
 		view = append(view, src[s.Start:s.Stop]...)
@@ -232,6 +236,10 @@ func implConvertHTML(c Case) ImplResult {
 	}()
 	if st.notWF {
 		res.Fails = append(res.Fails, OracleFail{"C05", "transform-lines-not-wellformed", st.details})
+	}
+	if st.blank != "" {
+		// hypothesis of GM.Props.ConvertNP (the guard `linesOKB` of `guardE`): no line handed to the transformer is blank
+		res.Fails = append(res.Fails, OracleFail{"C01", "assumption:transform-line-blank", st.blank})
 	}
 	parts := make([]string, 8)
 	for i := 0; i < 8; i++ {
